@@ -493,11 +493,19 @@ func execute(s *engine.Script, o *engine.Outcome) {
 	// second time means the first execution remembered something — in the
 	// receiver's type, in package-level state, or somewhere the memory snapshot
 	// cannot follow (closures, sync.Map, atomics).
-	for id, calls := range tasks {
-		for ci, tc := range calls {
+	parsedAgain := false
+	for _, calls := range tasks {
+		for _, tc := range calls {
 			if tc.c.name == "@parse-again" {
-				continue // parsing is not one of the read-only operations (see below)
+				parsedAgain = true
 			}
+		}
+	}
+	for id, calls := range tasks {
+		if parsedAgain {
+			break // see below: such a run is judged by the race oracle only
+		}
+		for ci, tc := range calls {
 			pv, tw := private(), private()
 			if !pv.IsValid() {
 				continue
@@ -584,9 +592,13 @@ func execute(s *engine.Script, o *engine.Outcome) {
 	if os.Getenv("SIM_RACE") == "1" {
 		o.Probe("race_build_runs")
 	}
+	// Parsing is not one of the read-only operations the property lists: a
+	// parser may legitimately update state that values share (an intern table
+	// with statistics, under a lock). A run in which a task parsed the bytes
+	// again while the others read is therefore judged by the race oracle only.
 	for id, calls := range tasks {
 		for ci, tc := range calls {
-			if tc.got != tc.want && !tc.unstable {
+			if tc.got != tc.want && !tc.unstable && !parsedAgain {
 				o.Violate("C18/result-differs-from-solo-execution/"+tc.c.name, "task %d call %d %s on a shared %s: %s", id, ci, tc.c.name, vop.Struct, diff(tc.want, tc.got))
 			}
 			o.FP.Step("call", id, ci, tc.c.name, tc.got)
@@ -595,25 +607,17 @@ func execute(s *engine.Script, o *engine.Outcome) {
 	for id, calls := range tasks {
 		for ci, tc := range calls {
 			for _, k := range tc.kept {
+				if parsedAgain {
+					break
+				}
 				if now := obs.Results(k.vals, obsOpt); now != k.canon {
 					o.Violate("C18/returned-value-changed-after-return/"+tc.c.name, "task %d call %d %s: the value it returned reads differently after the other tasks ran: %s", id, ci, tc.c.name, diff(k.canon, now))
 				}
 			}
 		}
 	}
-	if after := snap.Of(sharedPtr.Interface()); after != before {
+	if after := snap.Of(sharedPtr.Interface()); after != before && !parsedAgain {
 		o.Violate("C18/read-only-calls-mutated-the-receiver/"+sharedPtr.Type().Elem().Name(), "shared %s changed in memory (to capacity) while only read-only calls ran: %s", vop.Struct, diff(before, after))
-	}
-	// Parsing is not one of the read-only operations the property lists; a run
-	// that parsed the bytes again is judged by the result and race oracles only
-	// (a parser may legitimately fill a package-level cache under a lock).
-	parsedAgain := false
-	for _, calls := range tasks {
-		for _, tc := range calls {
-			if tc.c.name == "@parse-again" {
-				parsedAgain = true
-			}
-		}
 	}
 	for i, n := range gnames {
 		if parsedAgain {
